@@ -3,6 +3,7 @@
 Oracle: pv.ref.pddl.holds on the source formula (exact rationals) versus
 Operator(action, domain, args, objects).is_applicable(state) of the library."""
 import itertools
+import json
 from fractions import Fraction
 
 from pv import ctx
@@ -81,6 +82,11 @@ def check_case(case):
         return res
     world = pddl.World(dom, objects)
     objs = lib_objects(domain, build_objects(domain, objects))
+    if len(json.dumps(case["probes"])) % 3 == 0:
+        # callers also hand over the problem's own object table (Problem.objects, without the domain's constants):
+        # a call naming a constant must be judged all the same
+        objs = build_objects(domain, objects)
+        res.classes.append("plain-problem-objects")
     truth = {}
     prev_state = None
     ops = {}
